@@ -91,7 +91,10 @@ func (w XY) Unit() XY {
 
 // Length treats XY as a vector, and returns its length.
 func (w XY) Length() float64 {
-	return math.Sqrt(w.lengthSq())
+	// Hypot rather than Sqrt(x*x+y*y): the squares overflow (or underflow) for
+	// ordinates beyond about 1e154 (below 1e-162) although the length itself
+	// is representable.
+	return math.Hypot(w.X, w.Y)
 }
 
 // lengthSq treats XY as a vector, and returns its squared length.
@@ -111,7 +114,7 @@ func (w XY) Less(o XY) bool {
 }
 
 func (w XY) distanceTo(o XY) float64 {
-	return math.Sqrt(w.distanceSquaredTo(o))
+	return o.Sub(w).Length()
 }
 
 func (w XY) distanceSquaredTo(o XY) float64 {
